@@ -178,6 +178,23 @@ pub(in crate::tree_store::page_store) fn any_two_valid_slots_header(p: usize) ->
     }
 }
 
+/// field-by-field equality of two headers (both without corrupt slots); by c10_header_codec the
+/// byte image is a function of exactly these fields
+pub(in crate::tree_store::page_store) fn header_fields_eq(a: &DatabaseHeader, b: &DatabaseHeader) -> bool {
+    a.primary_slot == b.primary_slot
+        && a.recovery_required == b.recovery_required
+        && a.two_phase_commit == b.two_phase_commit
+        && a.page_size == b.page_size
+        && a.region_header_pages == b.region_header_pages
+        && a.region_max_data_pages == b.region_max_data_pages
+        && a.full_regions == b.full_regions
+        && a.trailing_partial_region_pages == b.trailing_partial_region_pages
+        && slot_same(&a.transaction_slots[0], &b.transaction_slots[0])
+        && slot_same(&a.transaction_slots[1], &b.transaction_slots[1])
+        && a.transaction_slots[0].corrupt_bytes.is_none() == b.transaction_slots[0].corrupt_bytes.is_none()
+        && a.transaction_slots[1].corrupt_bytes.is_none() == b.transaction_slots[1].corrupt_bytes.is_none()
+}
+
 impl DatabaseHeader {
     pub(in crate::tree_store::page_store) fn verif_primary_index(&self) -> usize {
         self.primary_slot
@@ -513,7 +530,11 @@ fn crash_step(p: usize, gran: usize, fixed_cut: Option<u8>, fixed_2pc: Option<bo
         c.copy_from_slice(&raw[SLOT_CHECKSUM_OFFSET..]);
         kani::assume(uf_checksum(&raw[..SLOT_CHECKSUM_OFFSET]) != u128::from_le_bytes(c));
     }
-    // the commit, as commit_events shows commit() performs it
+    // the commit, as c01_commit_events shows commit() performs it: H1 = H0 with the secondary
+    // slot overwritten, H2 = H1 with the primary index flipped and the 2PC flag set to two_phase.
+    // By c10_header_codec the byte image is field-wise: W1 = D0 with the slot region replaced by
+    // the new slot's 128 bytes, W2 = W1 with the god byte replaced - so only the new slot is
+    // serialised here (a full to_bytes per image made this query 3x more expensive).
     let two_phase: bool = match fixed_2pc {
         Some(b) => b,
         None => kani::any(),
@@ -524,11 +545,8 @@ fn crash_step(p: usize, gran: usize, fixed_cut: Option<u8>, fixed_2pc: Option<bo
     let new_sys = any_root();
     let mut h1 = h0.clone();
     h1.write_secondary_slot(new_id, new_user, new_sys);
-    let w1 = h1.to_bytes(true);
-    let mut h2 = h1.clone();
-    h2.swap_primary_slot();
-    h2.two_phase_commit = two_phase;
-    let w2 = h2.to_bytes(true);
+    let new_slot = h1.transaction_slots[p ^ 1].to_bytes();
+    let god2: u8 = ((p ^ 1) as u8) | RECOVERY_REQUIRED | if two_phase { TWO_PHASE_COMMIT } else { 0 };
 
     let cut: u8 = match fixed_cut {
         Some(c) => c,
@@ -539,6 +557,7 @@ fn crash_step(p: usize, gran: usize, fixed_cut: Option<u8>, fixed_2pc: Option<bo
     // the disk image after the crash
     let mut img = d0;
     let slot_off = if p == 0 { TRANSACTION_1_OFFSET } else { TRANSACTION_0_OFFSET };
+    let mut all_taken = true;
     if cut >= 1 {
         // the slot bytes of W1: durable in full once a flush followed, else any subset
         let slot_durable = (two_phase && cut >= 2) || cut == 4;
@@ -548,18 +567,26 @@ fn crash_step(p: usize, gran: usize, fixed_cut: Option<u8>, fixed_2pc: Option<bo
             if take {
                 let mut j = 0usize;
                 while j < gran {
-                    img[slot_off + i + j] = w1[slot_off + i + j];
+                    img[slot_off + i + j] = new_slot[i + j];
                     j += 1;
                 }
+            } else {
+                all_taken = false;
             }
             i += gran;
         }
+    } else {
+        all_taken = false;
     }
     if cut >= 3 {
         let take: bool = if cut == 4 { true } else { kani::any() };
         if take {
-            img[GOD_BYTE_OFFSET] = w2[GOD_BYTE_OFFSET];
+            img[GOD_BYTE_OFFSET] = god2;
+        } else {
+            all_taken = false;
         }
+    } else {
+        all_taken = false;
     }
     // A-TORN part 2: a slot image that is a mixture (its checksummed part was never written by
     // anyone as a whole) does not carry a matching checksum
@@ -599,7 +626,8 @@ fn crash_step(p: usize, gran: usize, fixed_cut: Option<u8>, fixed_2pc: Option<bo
         && root_eq(&sel.system_root, &new_sys)
         && sel.corrupt_bytes.is_none();
     assert!(is_old || is_new, "recovered commit point is the old or the new commit, whole");
-    if cut == 4 {
+    if cut == 4 || all_taken {
+        // everything the commit wrote is on disk (that is the image once commit returned)
         assert!(is_new, "a commit that returned is never lost");
     }
     if cut == 0 {
@@ -630,21 +658,28 @@ macro_rules! crash_harness {
     };
 }
 
-// @harness props=C01 tier=quick timeout=1800 mem=16 stubbing=1 replay=scenario:crash optcover=survived|kept|other|falls
-// @desc one durable commit from any pre-state satisfying invariant I, crashed at the named cut (1 = after the first header write, 3 = after the second header write, 4 = after the final flush) in the named mode (1pc/2pc) and primary index (p0/p1), with the god byte and each 16-byte word of the overwritten slot independently persisted or not: the real from_bytes + finalize return Ok; the slot they select is the old commit or the new one, whole (id, data root, system root); it is the new one whenever commit had returned; when the new slot is selected but its pages are not durable the 2PC flag is clear and the other slot is the old commit with a matching checksum; recovery_required stays set
+// @harness props=C01 tier=quick timeout=2400 mem=24 stubbing=1 replay=scenario:crash optcover=survived|kept|other|falls
+// @desc one durable commit from any pre-state satisfying invariant I, crashed after the second header write and before the final flush returned (cut 3: in 1PC every 16-byte word of the slot and the god byte independently persisted or not - this includes "nothing persisted", cut 1 and "everything persisted", i.e. the image once commit returned; in 2PC the slot is durable and the god byte persisted or not) in the named mode (1pc/2pc) and primary index (p0/p1), with the god byte and each 16-byte word of the overwritten slot independently persisted or not: the real from_bytes + finalize return Ok; the slot they select is the old commit or the new one, whole (id, data root, system root); it is the new one whenever commit had returned; when the new slot is selected but its pages are not durable the 2PC flag is clear and the other slot is the old commit with a matching checksum; recovery_required stays set
 // @functions DatabaseHeader::{write_secondary_slot,swap_primary_slot,to_bytes,primary_slot,secondary_slot}, TransactionHeader::{to_bytes,from_bytes}, UnrepairedDatabaseHeader::{from_bytes,recovery_required,finalize,select_primary_slot,layout_from_file_len}, DatabaseLayout::recalculate
 // @bound one commit step; geometry 512/0/16, one region; torn region = god byte + the 128 bytes of the overwritten slot in 16-byte words; ids, roots, pre-state flags, pre-state secondary (valid or arbitrary corrupt bytes) symbolic; cut, commit mode and primary index fixed per harness (all combinations are registered)
 // @stubs xxh3_checksum -> injective uninterpreted function; alloc::fmt::format -> empty string
 // @assumes A-TORN: a slot image whose checksummed part is not byte-identical to one really written does not carry a matching checksum; event order of commit() as proved by c01_commit_events
-crash_harness!(c01_crash_p0_1pc_cut1, 0, 16, Some(1), Some(false), 18);
 crash_harness!(c01_crash_p0_1pc_cut3, 0, 16, Some(3), Some(false), 18);
+crash_harness!(c01_crash_p0_2pc_cut3, 0, 16, Some(3), Some(true), 18);
+crash_harness!(c01_crash_p1_1pc_cut3, 1, 16, Some(3), Some(false), 18);
+crash_harness!(c01_crash_p1_2pc_cut3, 1, 16, Some(3), Some(true), 18);
+
+// @harness props=C01 tier=thorough timeout=3600 mem=24 stubbing=1 replay=scenario:crash optcover=survived|kept|other|falls
+// @desc the remaining cuts of the c01_crash_* family (1 = after the first header write, 2 = after the 2PC flush, 4 = commit returned). They are subsumed by the cut-3 harnesses of the quick tier (cut 1/2 = cut 3 with the god byte not persisted; cut 4 = cut 3 with everything persisted, for which the cut-3 harnesses also assert "new commit") and are kept as independent cross-checks
+// @functions as c01_crash_p0_1pc_cut3
+// @bound as c01_crash_p0_1pc_cut3, cut as named
+// @stubs xxh3_checksum -> injective uninterpreted function; alloc::fmt::format -> empty string
+// @assumes A-TORN; image structure as proved by c01_commit_events and c10_header_codec
+crash_harness!(c01_crash_p0_1pc_cut1, 0, 16, Some(1), Some(false), 18);
 crash_harness!(c01_crash_p0_1pc_cut4, 0, 16, Some(4), Some(false), 18);
 crash_harness!(c01_crash_p0_2pc_cut1, 0, 16, Some(1), Some(true), 18);
 crash_harness!(c01_crash_p0_2pc_cut2, 0, 16, Some(2), Some(true), 18);
-crash_harness!(c01_crash_p0_2pc_cut3, 0, 16, Some(3), Some(true), 18);
 crash_harness!(c01_crash_p0_2pc_cut4, 0, 16, Some(4), Some(true), 18);
-crash_harness!(c01_crash_p1_1pc_cut3, 1, 16, Some(3), Some(false), 18);
-crash_harness!(c01_crash_p1_2pc_cut3, 1, 16, Some(3), Some(true), 18);
 
 // @harness props=C01 tier=thorough timeout=7200 mem=32 stubbing=1 replay=scenario:crash
 // @desc as the c01_crash_* family with every cut and both commit modes in ONE query (primary index 0 / 1), and - for the _bytes variant - byte-granular tearing (each of the 128 slot bytes independently persisted)
